@@ -174,6 +174,14 @@ ConfigsC05x ==
                    !.adaptive = IF ha THEN ({"default"} \cup tb[2]) \ tb[3] ELSE {}] :
         tb \in TablesC05, ha \in BOOLEAN }
 
+\* deadlines and back-offs beyond one day (86400 s = 5,529,600 ticks of 2^-6 s)
+TwoDays == 11059200
+RetsDay == {Val(1), Val(6000000)}
+ConfigsC05y ==
+    { [Base EXCEPT !.maxAtt = 3, !.rc = TRUE, !.D = TwoDays, !.hasDefault = tb[1], !.strat = tb[2],
+                   !.legacy = tb[3], !.handler = ha, !.bsleep = ha] :
+        tb \in { <<TRUE, {}, {}>>, <<TRUE, {T}, {"default"}>> }, ha \in BOOLEAN }
+
 \* ---- C12 / C15: every dimension at small values -------------------------------
 OutsC12 == {OkOut, Out("exc", T, None), Out("res", R, 2), Out("exc", U, None), Out("exc", P, None),
             Out("abort", "-", None)}
@@ -187,7 +195,10 @@ ConfigsC12x ==
     { [Base EXCEPT !.maxAtt = 2, !.rc = TRUE, !.maxUnk = 1, !.D = d,
                    !.lim = [NoLim EXCEPT ![T] = 1], !.hasDefault = st[1], !.strat = st[2],
                    !.legacy = st[3], !.budget = bu, !.handler = ha, !.bsleep = ha, !.abort = ab,
-                   !.hooks = ha] :
+                   !.hooks = ha,
+                   \* with a handler: the context-style strategies also take outcome reports
+                   !.adaptive = IF ha THEN ({"default"} \cap (IF st[1] THEN {"default"} ELSE {})) \cup (st[2] \ st[3])
+                                ELSE {}] :
         d \in {3, Inf}, st \in {<<TRUE, {}, {}>>, <<FALSE, {T, U, P}, {U}>>, <<FALSE, {}, {}>>},
         bu \in {1}, ha \in BOOLEAN, ab \in BOOLEAN }
 OutsC12x == {OkOut, Out("exc", T, None), Out("res", R, 2), Out("exc", U, None)}
